@@ -2,7 +2,7 @@
    The real cwrs.c is #included (static icwrs/cwrsi and the PVQ table are reachable); only the two
    range-coder entry points it calls are replaced by capturing stubs, so encode_pulses/decode_pulses
    run unchanged.
-   Modes:  tie <level> <shard> <nshards> <seed>     level 0: exhaustive for V <= 2^20, 1: V <= 2^24
+   Modes:  tie <level> <shard> <nshards> <seed>     level 0: exhaustive for V <= 2^20, 1: V <= 2^22
            stdin                                    answer `cwrs …` lines read from stdin            */
 #ifdef HAVE_CONFIG_H
 #include "config.h"
@@ -120,7 +120,7 @@ static void do_pair(vrng *r, int n, int k, opus_uint32 limit, int in_cache)
 
 static void run_tie(int level, uint64_t seed)
 {
-   opus_uint32 limit = level ? (1u << 24) : (1u << 20);
+   opus_uint32 limit = level ? (1u << 22) : (1u << 20);
    vrng r; int i, j, q, n, seen[MAXN];
    int nb = mode->nbEBands;
    r.s = seed;
